@@ -1567,7 +1567,22 @@ def c02(res, tier, seed):
                             dict(kind="oracle-area", radius=r_, angle=angd, distance=d_, result=o), dict(clause="trimer-area", kind="inclusion-exclusion"))
             return ("spurious", "area agrees with the exact union area for the probed angles")
         if "polygon(" in qq.name:
-            return ("spurious", "polygon model not replayed natively")
+            n = qq.meta["n"]
+            radii = [m.get("r%d" % i_) if m.get("r%d" % i_) is not None else m.get("r", 1.0) for i_ in range(n)]
+            radii = [1.0 if r_ is None else r_ for r_ in radii]
+            o = native_eval([dict(fn="LineShape::radial_area", args=[radii])])[0]
+            if "area" not in o:
+                return ("spurious", "from_radial failed natively")
+            vs = [(unjf(v[0]), unjf(v[1])) for v in o["vertices"]]
+            sh = 0.0
+            for k_ in range(len(vs)):
+                (x0, y0), (x1, y1) = vs[k_], vs[(k_ + 1) % len(vs)]
+                sh += x0 * y1 - x1 * y0
+            true_area = abs(sh) / 2
+            if abs(unjf(o["area"]) - true_area) > 1e-9 * max(1.0, true_area):
+                return ("violated", "LineShape::from_radial(%s).area() = %.9g but the polygon's (shoelace) area is %.9g" % (radii, unjf(o["area"]), true_area),
+                        dict(kind="eval", fn="LineShape::radial_area", radii=radii, result=o), dict(clause="polygon-area"))
+            return ("spurious", "area agrees with the shoelace area natively")
         return None
     for qq in done:
         record(res, qq, replay)
@@ -1748,9 +1763,15 @@ def c09(res, tier, seed):
         others_same = all(after.fields[k] == bo.fields[k] or after.fields[k] is bo.fields[k] for k in range(8) if k != idx)
         qs.append(Query("BuildOptimiser::%s stores its argument and nothing else" % nm, [not (ok and others_same)], meta=dict(fn="BuildOptimiser::" + nm), nontrivial=False))
     qs += pipeline_facts()
+    # no process-global state in the library: results cannot depend on what ran before in the process
+    mir_txt = open(os.path.join(E.MIRDIR, "packing.mir")).read()
+    import re as _re
+    statics = _re.findall(r"^static (?:mut )?([^:]+):", mir_txt, _re.M)
+    qs.append(Query("the library defines no static (process-global) state: scores and optimisation results cannot depend on what ran earlier in the process (found: %s)" % (statics[:4],),
+                    [len(statics) != 0], meta=dict(statics=statics[:8], fn="whole crate MIR (dataflow fact, no solver)", global_state=True), nontrivial=False))
     done = run_queries(qs)
     for qq in done:
-        record(res, qq, lambda q_: replay_clone(q_) or replay_generic_fact(q_))
+        record(res, qq, lambda q_: replay_global_state(q_) or replay_clone(q_) or replay_generic_fact(q_))
     import kprops_misc
     kprops_misc.run_c09(res, tier)
     res.functions = used_fns(ex)
@@ -1758,6 +1779,27 @@ def c09(res, tier, seed):
     res.bounds = ["sequential core only: deep-copy Clone, seed dataflow, determinism of the optimiser given (state, settings, seed); 1 thread"]
     res.assumptions = ["NOT explored: thread counts, rayon work-stealing schedules, interleavings of replicas, process restarts. A data race introduced without changing the sequential facts would not be seen.",
                        "determinism given the seed follows from: the only randomness in optimise_state is the generator seeded from the configured seed (the MIR engine models every draw as coming from it) and no global state is touched"]
+
+
+def replay_global_state(q):
+    if not q.meta.get("global_state"):
+        return None
+    data = S.real_data()
+    groups = data["groups"]
+    sq = state_json("packed", "p1", groups, shape_json_of(data["shapes"]["polygon4"], "Polygon"), 5.0, 1.0, 1.5707963267948966, 0.0, 0.0, 0.0, family="Monoclinic")
+    ci = state_json("packed", "p1", groups, shape_json_of(data["shapes"]["circle"], "circle"), 5.0, 1.0, 1.5707963267948966, 0.0, 0.0, 0.0, family="Monoclinic")
+    tri = state_json("potential", "p1", groups, shape_json_of(data["shapes"]["ljtrimer:0.637556,120,1"], "Trimer"), 6.0, 1.0, 1.5707963267948966, 0.0, 0.0, 0.0, family="Monoclinic")
+    lc = state_json("potential", "p1", groups, shape_json_of(data["shapes"]["ljcircle"], "circle"), 3.0, 1.0, 1.5707963267948966, 0.0, 0.0, 0.0, family="Monoclinic")
+    probes = [(dict(fn="PackedState::score", args=["line", sq]), dict(fn="PackedState::score", args=["mol", ci])),
+              (dict(fn="PackedState::score", args=["mol", ci]), dict(fn="PackedState::score", args=["line", sq])),
+              (dict(fn="PotentialState::score", args=[tri]), dict(fn="PotentialState::score", args=[lc]))]
+    for first, second in probes:
+        alone = native_eval([second])[0]
+        after = native_eval([first, second])[1]
+        if alone != after:
+            return ("violated", "a state's score depends on what was scored earlier in the process: %s alone = %s, after another state = %s (statics: %s)" % (second["fn"], alone, after, q.meta.get("statics")),
+                    dict(kind="eval-order", first=first, second=second, alone=alone, after=after), dict(clause="global-state"))
+    return ("spurious", "no order dependence observed natively on the probe states")
 
 
 def pipeline_facts():
@@ -1795,7 +1837,7 @@ def pipeline_facts():
 
 # ------------------------------------------------------------------------------ C01
 
-def unwrap_terms(terms_):
+def unwrap_terms(terms_, link=True):
     """Replace every wrapped coordinate  ((P + 1/2) % 1 + 1) % 1 - 1/2  (the MIR of
     Transform2::periodic(1, -0.5)) by a fresh real u with  -1/2 <= u < 1/2  and  u = P - n for an
     integer n in -2..2 (P is within [-2.5, 2.5) for site coordinates in [-1/2,1/2] and the tables'
@@ -1816,11 +1858,37 @@ def unwrap_terms(terms_):
             found[t.id] = u
             cons.append(T.fcmp("fle", -0.5, u))
             cons.append(T.fcmp("flt", u, 0.5))
-            cons.append(T.bor(*[T.fcmp("feq", u, T.fbin("fsub", m, float(n))) for n in range(-2, 3)]))
+            if link:
+                cons.append(T.bor(*[T.fcmp("feq", u, T.fbin("fsub", m, float(n))) for n in range(-2, 3)]))
             stack.append(m)
             continue
         stack.extend(x for x in t.args if T.is_t(x))
     return found, cons
+
+
+def simplify_guards(terms_, a, q, t, c_):
+    """rewrite the shell-count guards into the variables the geometry uses (valid on the domain
+    a > 0, angle in [pi/6, pi/2] where cos is decreasing):  a/(a*q) -> 1/q ;  |t - pi/2| < K  ->  cos t < sin K"""
+    import math
+    mapping = {}
+    seen = set()
+    stack = [z for z in terms_ if T.is_t(z)]
+    while stack:
+        z = stack.pop()
+        if z.id in seen:
+            continue
+        seen.add(z.id)
+        if z.op == "fdiv" and z.args[0] is a and T.is_t(z.args[1]) and z.args[1].op == "fmul" and z.args[1].args[0] is a and z.args[1].args[1] is q:
+            mapping[z.id] = T.fbin("fdiv", 1.0, q)
+        if z.op == "flt" and T.is_t(z.args[0]) and z.args[0].op == "fabs" and not T.is_t(z.args[1]):
+            inner = z.args[0].args[0]
+            if T.is_t(inner) and inner.op == "fsub" and inner.args[0] is t and not T.is_t(inner.args[1]) and abs(inner.args[1] - math.pi / 2) < 1e-12:
+                mapping[z.id] = T.fcmp("flt", c_, math.sin(float(z.args[1])))
+        stack.extend(w for w in z.args if T.is_t(w))
+    if not mapping:
+        return list(terms_)
+    memo = {}
+    return [T.subst(z, mapping, memo) for z in terms_]
 
 
 def match_wrap(t):
@@ -1899,9 +1967,10 @@ def c01(res, tier, seed):
            T.fcmp("feq", T.fbin("fadd", T.fbin("fmul", c_, c_), T.fbin("fmul", s_, s_)), 1.0), T.fcmp("fle", 0.5, s_), T.fcmp("fle", 0.0, c_),
            T.fcmp("feq", T.fbin("fadd", T.fbin("fmul", cth, cth), T.fbin("fmul", sth, sth)), 1.0),
            T.fcmp("fle", -0.5, x), T.fcmp("fle", x, 0.5), T.fcmp("fle", -0.5, y), T.fcmp("fle", y, 0.5)]
-    # link the angle itself (used by the shell-count guards) with its cosine: cos is decreasing on [pi/6, pi/2]
-    for thr in (0.2, 0.5, 0.1, 0.35):
-        dom.append(T.beq(T.fcmp("fle", math.pi / 2 - thr, t), T.fcmp("fle", c_, math.sin(thr))))
+    # geometry-only domain (the angle itself is eliminated from the guards by simplify_guards)
+    dom_geo = [T.fcmp("fle", 0.01, a), T.fcmp("fle", a, 50.0), T.fcmp("fle", 0.1, q), T.fcmp("fle", q, 1.0),
+               T.fcmp("feq", T.fbin("fadd", T.fbin("fmul", c_, c_), T.fbin("fmul", s_, s_)), 1.0), T.fcmp("fle", 0.5, s_), T.fcmp("fle", 0.0, c_),
+               T.fcmp("feq", T.fbin("fadd", T.fbin("fmul", cth, cth), T.fbin("fmul", sth, sth)), 1.0)]
     all_q = []
     ctxs = []
     exo = E.load(generics={"S": "opaque::Shape"})
@@ -1972,74 +2041,245 @@ def c01(res, tier, seed):
                 dx = T.fbin("fadd", T.fbin("fmul", float(n_), A[0]), T.fbin("fmul", float(m_), Bv[0]))
                 dy = T.fbin("fmul", float(m_), Bv[1])
                 return [Pj[0], Pj[1], T.fbin("fadd", Pj[2], dx), Pj[3], Pj[4], T.fbin("fadd", Pj[5], dy)]
-            Wn, Wm = (5, 3) if tier == "quick" else (6, 4)
+            Wn, Wm = (4, 3) if tier == "quick" else (6, 4)
             ctx = dict(group=g, shape=sname, skind=skind, sdata=sdata, N=N, fam=fam)
-            for i_ in range(N):
-                for j_ in range(i_, N):
-                    for n_ in range(-Wn, Wn + 1):
-                        for m_ in range(-Wm, Wm + 1):
-                            if i_ == j_ and (n_, m_) <= (0, 0):
-                                continue
-                            goal = true_overlap(skind, sitems, Pcopy[i_], image(Pcopy[j_], n_, m_))
-                            # hypotheses: the code's own formula with the tests near the goal made real, the rest free
-                            mapping = {}
-                            for (k, li, lj, ln, lm), e in labelled.items():
-                                near = False
-                                if (li, lj) == (i_, j_) and max(abs(ln - n_), abs(lm - m_)) <= 1:
-                                    near = True
-                                if (li, lj) == (j_, i_) and max(abs(ln + n_), abs(lm + m_)) <= 1:
-                                    near = True
-                                if li == lj and li in (i_, j_) and max(abs(ln), abs(lm)) <= 1:
-                                    near = True
-                                if near:
-                                    mapping[e["x"].id] = code_intersects(e)
-                            H = T.subst(some, mapping)
-                            asserts = dom + fixR + list(pc) + [H, goal]
-                            wmap, wcons = unwrap_terms(asserts)
-                            if wmap:
-                                memo = {}
-                                asserts = [T.subst(z, wmap, memo) for z in asserts] + wcons
-                            qq = Query("[%s x %s] copies %d,%d image (%d,%d): scored state has no overlap there" % (g, sname, i_, j_, n_, m_), asserts, timeout=40 if tier == "quick" else 240,
-                                       meta=dict(group=g, shape=sname, i=i_, j=j_, n=n_, m=m_, real_tests=len(mapping)))
-                            all_q.append(qq)
-                            ctxs.append((qq, ctx))
-            # beyond the window: real-valued offsets (covers every farther image at once)
-            nn, mm = F("n_off"), F("m_off")
-            for i_ in range(N):
-                for j_ in range(i_, N):
-                    far = T.bor(T.fcmp("fle", Wn + 1.0, nn), T.fcmp("fle", nn, -(Wn + 1.0)), T.fcmp("fle", Wm + 1.0, mm), T.fcmp("fle", mm, -(Wm + 1.0)))
-                    dx = T.fbin("fadd", T.fbin("fmul", nn, A[0]), T.fbin("fmul", mm, Bv[0]))
-                    dy = T.fbin("fmul", mm, Bv[1])
-                    Pj = Pcopy[j_]
-                    img = [Pj[0], Pj[1], T.fbin("fadd", Pj[2], dx), Pj[3], Pj[4], T.fbin("fadd", Pj[5], dy)]
-                    # enclosing discs overlap is necessary for the shapes to overlap
-                    ddx, ddy = T.fbin("fsub", Pcopy[i_][2], img[2]), T.fbin("fsub", Pcopy[i_][5], img[5])
-                    close = T.fcmp("flt", T.fbin("fadd", T.fbin("fmul", ddx, ddx), T.fbin("fmul", ddy, ddy)), (2 * R) ** 2)
-                    mapping = {}
-                    for (k, li, lj, ln, lm), e in labelled.items():
-                        if li == lj and max(abs(ln), abs(lm)) <= 1:
-                            mapping[e["x"].id] = code_intersects(e)
-                    H = T.subst(some, mapping)
-                    asserts = dom + fixR + list(pc) + [H, far, close]
-                    wmap, wcons = unwrap_terms(asserts)
-                    if wmap:
-                        memo = {}
-                        asserts = [T.subst(z, wmap, memo) for z in asserts] + wcons
-                    qq = Query("[%s x %s] copies %d,%d: no image beyond the window |n|<=%d, |m|<=%d can come within 2R of a copy in a scored state (offsets real-valued)" % (g, sname, i_, j_, Wn, Wm), asserts,
-                               timeout=60 if tier == "quick" else 300, meta=dict(group=g, shape=sname, i=i_, j=j_, window=(Wn, Wm)))
-                    all_q.append(qq)
-                    ctxs.append((qq, ctx))
+            # per shell count k: the region condition G_k (path literals before the first test) and one
+            # clause per test:  prefilter_e => not intersects_e .  The extraction is validated against the
+            # code's own "score is Some" formula below.
+            regions = {}
+            for k, ents in by_k.items():
+                first = ents[0]
+                # in-cell tests come first and have no prefilter; the region literals are the common prefix
+                G = list(first["pc"]) if N == 1 else list(first["pc"])
+                if N == 1:
+                    # the first test of a single-copy state is a periodic one: its last literal is the prefilter
+                    G = G[:-1]
+                clauses = {}
+                for lab, e in labelled.items():
+                    if lab[0] != k:
+                        continue
+                    is_periodic = (lab[3], lab[4]) != (0, 0) or lab[1] == lab[2]
+                    pre = e["pc"][-1] if is_periodic else True
+                    clauses[lab[1:]] = (pre, e)
+                regions[k] = (G, clauses)
+                # validation: F and G_k imply every clause (with the X's as in F)
+                neg = T.bor(*[T.band(pre, e["x"]) for (pre, e) in clauses.values()])
+                vq = Query("[%s x %s] k=%d: 'score is Some' implies, for each of the %d recorded tests, prefilter => no intersection (extraction check)" % (g, sname, k, len(clauses)),
+                           fixR + list(pc) + G + [some, neg], timeout=60, meta=dict(group=g, shape=sname, k=k), nontrivial=False)
+                all_q.append(vq)
+            import math as _m
+            nsides = len(sdata["items"])
+            r_in = R * _m.cos(_m.pi / nsides) * (1 - 1e-12) if skind == "line" else None
+
+            def d2(P, Q_):
+                dx, dy = T.fbin("fsub", P[2], Q_[2]), T.fbin("fsub", P[5], Q_[5])
+                return T.fbin("fadd", T.fbin("fmul", dx, dx), T.fbin("fmul", dy, dy))
+
+            def wraps_in(terms_):
+                found, _ = unwrap_terms([z for z in terms_ if T.is_t(z)], link=False)
+                return set(found)
+
+            def finish(asserts, link=False, i_=None, j_=None):
+                """eliminate the angle from the guards; replace wrapped coordinates.  Only differences of
+                positions matter (the overlap search is translation invariant: every test compares two
+                placements), so copy j is put at the fractional origin and copy i at a free offset in (-1,1)^2
+                -- a superset of the offsets a site can produce, hence sound for unsat."""
+                asserts = simplify_guards(asserts, a, q, t, c_)
+                wmap, wcons = unwrap_terms(asserts, link=link)
+                if wmap and not link and i_ is not None:
+                    wi = wraps_in([Pcopy[i_][2], Pcopy[i_][5]])
+                    wj = wraps_in([Pcopy[j_][2], Pcopy[j_][5]])
+                    newmap = {}
+                    cons = []
+                    for tid, u in wmap.items():
+                        if tid in wj or i_ == j_:
+                            newmap[tid] = 0.0
+                        elif tid in wi:
+                            dv = T.var("delta%d" % tid, "F")
+                            newmap[tid] = dv
+                            cons += [T.fcmp("flt", -1.0, dv), T.fcmp("flt", dv, 1.0)]
+                        else:
+                            newmap[tid] = u
+                            cons += [T.fcmp("fle", -0.5, u), T.fcmp("flt", u, 0.5)]
+                    memo = {}
+                    return [T.subst(z, newmap, memo) for z in asserts] + cons
+                if wmap:
+                    memo = {}
+                    asserts = [T.subst(z, wmap, memo) for z in asserts] + wcons
+                return asserts
+            for k, (G, clauses) in regions.items():
+                def hyp_of(e_pre, e):
+                    """what a negative test tells us"""
+                    if skind == "line":
+                        # polygons: the edge test is complete for overlapping congruent convex polygons (C12), so a
+                        # negative test means no overlap, hence the inscribed discs are disjoint
+                        return T.bor(T.bnot(e_pre), T.fcmp("fle", (2 * r_in) ** 2, d2(e["p"], e["q"])))
+                    return T.bor(T.bnot(e_pre), T.bnot(code_intersects(e)))
+
+                def near_clauses(i_, j_, n_, m_, radius=1):
+                    out = []
+                    for (li, lj, ln, lm), (pre, e) in clauses.items():
+                        near = False
+                        if (li, lj) == (i_, j_) and max(abs(ln - n_), abs(lm - m_)) <= radius:
+                            near = True
+                        if (li, lj) == (j_, i_) and max(abs(ln + n_), abs(lm + m_)) <= radius:
+                            near = True
+                        if li == lj and li in (i_, j_) and max(abs(ln), abs(lm)) <= 1:
+                            near = True
+                        if near:
+                            out.append(hyp_of(pre, e))
+                    return out
+                for i_ in range(N):
+                    for j_ in range(i_, N):
+                        for n_ in range(-Wn, Wn + 1):
+                            for m_ in range(-Wm, Wm + 1):
+                                if i_ == j_ and (n_, m_) <= (0, 0):
+                                    continue
+                                gimg = image(Pcopy[j_], n_, m_)
+                                tested = clauses.get((i_, j_, n_, m_)) or clauses.get((j_, i_, -n_, -m_))
+                                base = dom_geo + fixR + G
+                                if tested is not None:
+                                    pre, e = tested
+                                    # (1) the prefilter lets through every pair whose enclosing discs overlap
+                                    if pre is not True:
+                                        qq = Query("[%s x %s] k=%d copies %d,%d image (%d,%d) [tested]: the centre-distance prefilter passes whenever the enclosing discs overlap" % (g, sname, k, i_, j_, n_, m_),
+                                                   finish(base + [T.fcmp("flt", d2(e["p"], e["q"]), (2 * R) ** 2), T.bnot(pre)], i_=i_, j_=j_), timeout=30, meta=dict(group=g, shape=sname, k=k, i=i_, j=j_, n=n_, m=m_, kind="prefilter"))
+                                        all_q.append(qq)
+                                        ctxs.append((qq, ctx))
+                                    # (2) discs: the tested pair's own clause excludes a true overlap (polygons: this step is C12)
+                                    if skind == "mol":
+                                        goal = true_overlap(skind, sitems, e["p"], e["q"])
+                                        qq = Query("[%s x %s] k=%d copies %d,%d image (%d,%d) [tested]: a negative test excludes an overlap of more than 1e-9" % (g, sname, k, i_, j_, n_, m_),
+                                                   finish(base + [hyp_of(pre, e), goal], i_=i_, j_=j_), timeout=30 if tier == "quick" else 240, meta=dict(group=g, shape=sname, k=k, i=i_, j=j_, n=n_, m=m_, kind="tested"))
+                                        all_q.append(qq)
+                                        ctxs.append((qq, ctx))
+                                    continue
+                                # untested image: can it overlap although all neighbouring tests were negative?
+                                hyp = near_clauses(i_, j_, n_, m_)
+                                if skind == "mol":
+                                    goal = true_overlap(skind, sitems, Pcopy[i_], gimg)
+                                else:
+                                    goal = T.fcmp("flt", d2(Pcopy[i_], gimg), (2 * R) ** 2)
+                                qq = Query("[%s x %s] k=%d copies %d,%d image (%d,%d) [not searched]: cannot overlap when the neighbouring tests are negative%s" % (g, sname, k, i_, j_, n_, m_, "" if skind == "mol" else " (stage 1: inscribed/enclosing discs)"),
+                                           finish(base + hyp + [goal], i_=i_, j_=j_), timeout=30 if tier == "quick" else 240,
+                                           meta=dict(group=g, shape=sname, k=k, i=i_, j=j_, n=n_, m=m_, hypotheses=len(hyp), kind="untested"))
+                                qq.get_terms = [c_, s_, cth, sth]
+                                qq.rawq = (base + hyp + [goal], finish)
+                                if skind == "line":
+                                    def mk_stage2(i_=i_, j_=j_, n_=n_, m_=m_, k=k, base=base, clauses=clauses, gimg=gimg, finish=finish):
+                                        hyp2 = []
+                                        for (li, lj, ln, lm), (pre, e) in clauses.items():
+                                            near = ((li, lj) == (i_, j_) and max(abs(ln - n_), abs(lm - m_)) <= 1) or ((li, lj) == (j_, i_) and max(abs(ln + n_), abs(lm + m_)) <= 1)
+                                            if near:
+                                                hyp2.append(T.bor(T.bnot(pre), T.bnot(code_intersects(e))))
+                                        goal2 = true_overlap("line", sitems, Pcopy[i_], gimg)
+                                        raw2 = base + hyp2 + [goal2]
+                                        q2 = Query("[%s x %s] k=%d copies %d,%d image (%d,%d) [not searched]: cannot overlap when the neighbouring tests are negative (stage 2: real edge tests, separating-axis overlap)" % (g, sname, k, i_, j_, n_, m_),
+                                                   finish(raw2, i_=i_, j_=j_), timeout=90 if tier == "quick" else 600, meta=dict(group=g, shape=sname, k=k, i=i_, j=j_, n=n_, m=m_, kind="untested-exact", hypotheses=len(hyp2)))
+                                        q2.get_terms = [c_, s_, cth, sth]
+                                        q2.rawq = (raw2, finish)
+                                        return q2
+                                    qq.stage2 = mk_stage2
+                                all_q.append(qq)
+                                ctxs.append((qq, ctx))
+                # beyond the window: real-valued offsets (covers every farther image at once)
+                nn, mm = F("n_off"), F("m_off")
+                for i_ in range(N):
+                    for j_ in range(i_, N):
+                        far = T.bor(T.fcmp("fle", Wn + 1.0, nn), T.fcmp("fle", nn, -(Wn + 1.0)), T.fcmp("fle", Wm + 1.0, mm), T.fcmp("fle", mm, -(Wm + 1.0)))
+                        dx = T.fbin("fadd", T.fbin("fmul", nn, A[0]), T.fbin("fmul", mm, Bv[0]))
+                        dy = T.fbin("fmul", mm, Bv[1])
+                        Pj = Pcopy[j_]
+                        img = [Pj[0], Pj[1], T.fbin("fadd", Pj[2], dx), Pj[3], Pj[4], T.fbin("fadd", Pj[5], dy)]
+                        close = T.fcmp("flt", d2(Pcopy[i_], img), (2 * R) ** 2)
+                        hyp = []
+                        for (li, lj, ln, lm), (pre, e) in clauses.items():
+                            if li == lj and max(abs(ln), abs(lm)) <= 1:
+                                hyp.append(hyp_of(pre, e))
+                        qq = Query("[%s x %s] k=%d copies %d,%d: no image beyond the window |n|<=%d, |m|<=%d can come within 2R of a copy in a scored state (offsets real-valued)" % (g, sname, k, i_, j_, Wn, Wm),
+                                   finish(dom_geo + fixR + G + hyp + [far, close], i_=i_, j_=j_), timeout=60 if tier == "quick" else 300, meta=dict(group=g, shape=sname, k=k, i=i_, j=j_, window=(Wn, Wm), kind="far"))
+                        all_q.append(qq)
+                        ctxs.append((qq, ctx))
     done = run_queries(all_q)
     ctx_of = {id(qq): cx for qq, cx in ctxs}
+    # queries nlsat could not decide are split over a grid of the cell/offset domain (36 boxes); every
+    # box must be unsat for the obligation to count, a sat box is a counterexample candidate
+    def split_unknown(qs_, label):
+        import itertools
+        todo = [qq for qq in qs_ if qq.status not in ("sat", "unsat") and getattr(qq, "rawq", None) is not None]
+        subs = []
+        for qq in todo:
+            dvs = [z for z in T.free_vars(qq.asserts) if z.args[0].startswith("delta")]
+            cbands = [(0.0, 0.2), (0.2, 0.48), (0.48, 0.8661)]
+            qbands = [(0.1, 1.0 / 3), (1.0 / 3, 0.5), (0.5, 1.0)]
+            signs = list(itertools.product([0, 1], repeat=len(dvs)))
+            qq.boxes = []
+            for (c0, c1), (q0, q1), sg in itertools.product(cbands, qbands, signs):
+                extra = [T.fcmp("fle", c0, c_), T.fcmp("fle", c_, c1), T.fcmp("fle", q0, q), T.fcmp("fle", q, q1)]
+                extra += [T.fcmp("fle", 0.0, dv) if s__ else T.fcmp("flt", dv, 0.0) for dv, s__ in zip(dvs, sg)]
+                b = Query(qq.name + " [box]", qq.asserts + extra, timeout=20 if tier == "quick" else 120, meta=qq.meta)
+                b.get_terms = getattr(qq, "get_terms", [])
+                b.rawq = qq.rawq
+                qq.boxes.append(b)
+                subs.append(b)
+        if subs:
+            run_queries(subs)
+            for qq in todo:
+                st = [b.status for b in qq.boxes]
+                qq.secs += sum(b.secs for b in qq.boxes)
+                if any(s__ == "sat" for s__ in st):
+                    b = [b for b in qq.boxes if b.status == "sat"][0]
+                    qq.status, qq.model = "sat", b.model
+                    qq.term_names = getattr(b, "term_names", {})
+                elif all(s__ == "unsat" for s__ in st):
+                    qq.status = "unsat"
+                    qq.meta = dict(qq.meta, decided_by="%d domain boxes, all unsat" % len(st))
+            res.extra[label] = len(todo)
+    split_unknown(done, "split_round1")
+    # polygons: goals the disc abstraction cannot exclude get the exact query
+    stage2 = []
+    for qq in list(done):
+        if getattr(qq, "stage2", None) is not None and qq.status != "unsat":
+            q2 = qq.stage2()
+            ctx_of[id(q2)] = ctx_of.get(id(qq))
+            stage2.append((qq, q2))
+    if stage2:
+        run_queries([q2 for _, q2 in stage2])
+        split_unknown([q2 for _, q2 in stage2], "split_round2")
+        repl = {id(q1): q2 for q1, q2 in stage2}
+        done = [repl.get(id(qq), qq) for qq in done]
+        res.extra["stage2_queries"] = len(stage2)
 
     def replay(qq):
         cx = ctx_of.get(id(qq))
         if cx is None:
             return None
-        m = qq.model
+        m = dict(qq.model)
         g = cx["group"]
+        import math
+        names = getattr(qq, "term_names", {})
+        cv = m.get(names.get(c_.id)) if names.get(c_.id) else None
+        sv = m.get(names.get(s_.id)) if names.get(s_.id) else None
+        if cv is not None and sv is not None:
+            m["t"] = math.atan2(sv, cv)
+        if m.get("x") is None and getattr(qq, "rawq", None) is not None and m.get("a") is not None and cv is not None:
+            # the query used relative offsets: solve the exact (site-linked) version with the cell pinned
+            raw, fin = qq.rawq
+            pin = [T.fcmp("fle", m["a"] - 1e-9, a), T.fcmp("fle", a, m["a"] + 1e-9), T.fcmp("fle", m["q"] - 1e-9, q), T.fcmp("fle", q, m["q"] + 1e-9),
+                   T.fcmp("fle", cv - 1e-9, c_), T.fcmp("fle", c_, cv + 1e-9)]
+            box = [T.fcmp("fle", -0.5, x), T.fcmp("fle", x, 0.5), T.fcmp("fle", -0.5, y), T.fcmp("fle", y, 0.5)]
+            q2 = Query("exact", fin(raw + pin + box, link=True), timeout=120)
+            q2.get_terms = [c_, s_, cth, sth]
+            run_queries([q2])
+            if q2.status != "sat":
+                return ("spurious", "relative-offset model has no site realising it (%s)" % q2.status)
+            m2 = dict(q2.model)
+            n2 = getattr(q2, "term_names", {})
+            m.update(m2)
+            if n2.get(cth.id) and m2.get(n2[cth.id]) is not None:
+                m["th"] = math.atan2(m2.get(n2[sth.id], 0.0), m2.get(n2[cth.id], 1.0))
         vals = dict(a=m.get("a"), q=m.get("q"), t=m.get("t"), x=m.get("x"), y=m.get("y"))
-        if any(v is None for v in vals.values()):
+        if any(v_ is None for v_ in vals.values()):
             return ("spurious", "model not numeric")
         sj = shape_json_of(cx["sdata"], cx["shape"])
         # the model's sin/cos are uninterpreted values; the native run uses the angles themselves.
